@@ -7,6 +7,7 @@ import (
 	"go/types"
 	"sort"
 	"strings"
+	"sync"
 	"time"
 
 	"golang.org/x/tools/go/ssa"
@@ -70,11 +71,12 @@ type Config struct {
 }
 
 type Exec struct {
-	Prog  *ssa.Program
-	C     *term.Ctx
-	S     *smt.Solver
-	Cfg   Config
-	World *World
+	constCache map[*ssa.Const]Value // scalar constants (terms are immutable and live as long as C)
+	Prog       *ssa.Program
+	C          *term.Ctx
+	S          *smt.Solver
+	Cfg        Config
+	World      *World
 
 	// per-path state
 	pc           []*term.T
@@ -168,6 +170,7 @@ type goPanicSig struct {
 
 func New(w *World, solver *smt.Solver, cfg Config) *Exec {
 	e := &Exec{Prog: w.Prog, World: w, C: term.NewCtx(), S: solver, Cfg: cfg}
+	e.constCache = map[*ssa.Const]Value{}
 	e.Stats.Funcs = map[string]bool{}
 	e.Stats.Stubs = map[string]bool{}
 	if e.Cfg.Unwind == 0 {
@@ -585,12 +588,36 @@ func (e *Exec) where() string {
 	}
 	f := e.cur.Frames[len(e.cur.Frames)-1]
 	if f.Block != nil && f.IP < len(f.Block.Instrs) {
-		return e.posOf(f.Block.Instrs[f.IP]) + " in " + f.Fn.String()
+		return e.posOf(f.Block.Instrs[f.IP]) + " in " + fnName(f.Fn)
 	}
-	return f.Fn.String()
+	return fnName(f.Fn)
+}
+
+var (
+	posCache    sync.Map // ssa.Instruction -> string
+	fnNameCache sync.Map // *ssa.Function -> string
+)
+
+// fnName is the function's String() (which formats on every call), cached.
+func fnName(fn *ssa.Function) string {
+	if s, ok := fnNameCache.Load(fn); ok {
+		return s.(string)
+	}
+	s := fn.String()
+	fnNameCache.Store(fn, s)
+	return s
 }
 
 func (e *Exec) posOf(in ssa.Instruction) string {
+	if s, ok := posCache.Load(in); ok {
+		return s.(string)
+	}
+	s := e.posOf0(in)
+	posCache.Store(in, s)
+	return s
+}
+
+func (e *Exec) posOf0(in ssa.Instruction) string {
 	p := in.Pos()
 	if !p.IsValid() {
 		// search neighbours for a valid position
@@ -633,7 +660,7 @@ func (e *Exec) stack() string {
 	for i := len(e.cur.Frames) - 1; i >= 0 && i >= len(e.cur.Frames)-8; i-- {
 		f := e.cur.Frames[i]
 		if f.Fn != nil {
-			s += " < " + f.Fn.String()
+			s += " < " + fnName(f.Fn)
 		}
 	}
 	return s
